@@ -415,7 +415,7 @@ func evalRecover(c *Case) (kind, sig, msg string) {
 }
 
 func TestRecoverSupersedes(t *testing.T) {
-	ev.Rule(chkRecover, "rapid: create + 0-5 updates + valid recover R with a good delta; extension = 1-6 validly signed updates that reveal the update key R itself commits to (and older update keys), published and anchored at or before R's coordinates (lower time; same time with lower number; lower time with higher number); oracle: document == exactly R's own content, commitments == R's; non-trivial = >= 1 update by the key R commits to anchored at/before R")
+	ev.Rule(chkRecover, "rapid: create + 0-5 updates + valid recover R with a good delta; extension = 1-6 validly signed updates that reveal the update key R itself commits to (and older update keys), published and anchored at or before R's coordinates (lower time; same time with lower number; lower time with higher number), plus 0-2 update operations anchored after R that reveal keys the DID never committed to (so that there is an update pass behind R); oracle: document == exactly R's own content, commitments == R's; non-trivial = >= 1 update by the key R commits to anchored at/before R")
 	ev.Rapid(t, chkRecover, 400, 4000, func(t *rapid.T) {
 		ch := newChain(t, "c04r")
 		steps := rapid.IntRange(0, 5).Draw(t, "preSteps")
@@ -453,6 +453,13 @@ func TestRecoverSupersedes(t *testing.T) {
 				tm, num = rT-1-uint64(rapid.IntRange(0, 30).Draw(t, "dt")), 51+uint64(rapid.IntRange(0, 40).Draw(t, "num"))
 			}
 			h = append(h, op.At(tm, num, fmt.Sprintf("ref-e%d", i), 0))
+		}
+		// update-type operations anchored after R that have no say in the DID (they reveal keys no commitment of it was
+		// ever made to): the history goes on behind R, the state does not
+		later := rapid.IntRange(0, 2).Draw(t, "laterStrangers")
+		for i := 0; i < later; i++ {
+			op := hist.NewSigned(hist.SignedSpec{Name: fmt.Sprintf("later-stranger%d", i+1), Type: "update", Suffix: ch.suffix, Code: ch.code, Reveal: ch.key(t), NextUpd: ch.key(t), Markers: map[string]interface{}{fmt.Sprintf("stranger%d", i+1): "must-not-appear"}})
+			h = append(h, op.At(rT+1+uint64(rapid.IntRange(0, 20).Draw(t, "laterDt")), uint64(rapid.IntRange(0, 99).Draw(t, "laterNum")), fmt.Sprintf("ref-l%d", i), 0))
 		}
 		// (time, number) pairs must stay pairwise distinct
 		seen := map[[2]uint64]bool{}
